@@ -73,7 +73,7 @@ pub struct Opts {
 }
 
 fn group_key(oracle: &str, tags: &[String]) -> String {
-    format!("{}|{}", oracle, tags.join(","))
+    format!("{}|{}", oracle, tags.join("\u{1f}"))
 }
 
 pub fn gen_scenario<F: Family>(seed: u64, tier: Tier, i: u64) -> F::Scn {
@@ -746,7 +746,7 @@ pub fn parent<F: Family>(opts: &Opts) -> i32 {
                     let tags: Vec<String> = parts
                         .next()
                         .unwrap_or("")
-                        .split(',')
+                        .split('\u{1f}')
                         .filter(|x| !x.is_empty())
                         .map(|x| x.to_string())
                         .collect();
